@@ -65,8 +65,12 @@ contract(
 )
 
 contract(
-    T, "TokenizerCore.tokenize", props=["C05", "C13"],
+    T, "TokenizerCore.tokenize", props=["C05", "C13", "C15"],
     types={"sql": "str"},
+    # every scan starts from the state of a fresh tokenizer, whatever the object tokenized before (positions of the
+    # first token depend on _char / _line / _col at this point)
+    assert_at=[("try:", ["self._char == ''", "self._peek == ''", "self._current == 0", "self._start == 0", "self._line == 1", "self._col == 0",
+                         "self._end is False", "len(self.tokens) == 0", "len(self._comments) == 0", "self._prev_token_line == -1"])],
     ensures=["result is self.tokens", "self.sql == sql", "self.size == len(sql)"],
     # whatever the scanner raises, only a TokenError (with an in-range context window) leaves tokenize
     raises={"TokenError": ["0 <= exc.start", "exc.end <= len(sql) - 1", "exc.start <= self._current", "exc.end <= self._current + 50"]},
